@@ -8,6 +8,7 @@ import Driver.C16
 import Driver.C18
 import Driver.C08
 import Driver.C09
+import Driver.C09G
 import Driver.C10
 import Driver.C05
 import Driver.C07
@@ -46,6 +47,7 @@ def stepLine (st : St) (line : String) : St × String :=
   | "C07" :: rest => let (s', o) := Driver.C07.step st.c07 rest; ({ st with c07 := s' }, o)
   | "C05" :: rest => let (s', o) := Driver.C05.step st.c05 rest; ({ st with c05 := s' }, o)
   | "C09" :: rest => (st, Driver.C09.step rest)
+  | "C09G" :: rest => (st, Driver.C09G.step rest)
   | "C08" :: rest => (st, Driver.C08.step rest)
   | "C18" :: rest => let (s', o) := Driver.C18.step st.c18 rest; ({ st with c18 := s' }, o)
   | "C16" :: rest => let (s', o) := Driver.C16.step st.c16 rest; ({ st with c16 := s' }, o)
